@@ -141,6 +141,9 @@ pub struct RunCtx {
     pub fp: Sha256,
     pub max_events: u64,
     pub capped: bool,
+    pub wall_start: std::time::Instant,
+    pub max_wall_s: u64,
+    pub wall_capped: bool,
 }
 
 thread_local! {
@@ -170,6 +173,9 @@ pub fn begin_run(dec: Decisions, trace: bool, max_events: u64) {
             fp: Sha256::new(),
             max_events,
             capped: false,
+            wall_start: std::time::Instant::now(),
+            max_wall_s: 120,
+            wall_capped: false,
         });
     });
 }
@@ -239,6 +245,9 @@ pub fn now_ms() -> u64 {
 /// Appends an event to the run's event log (rolling hash + optional trace).
 pub fn event(s: &str) {
     let ms = now_ms();
+    if live() {
+        eprintln!("{ms:>7} {s}");
+    }
     with(|c| {
         c.events += 1;
         c.hasher.update(ms.to_le_bytes());
@@ -249,6 +258,11 @@ pub fn event(s: &str) {
         }
         if c.events >= c.max_events {
             c.capped = true;
+        }
+        // wall-clock watchdog (only consulted every 4096 events; a hit ends the run as "capped")
+        if c.events % 4096 == 0 && c.wall_start.elapsed().as_secs() > c.max_wall_s {
+            c.capped = true;
+            c.wall_capped = true;
         }
     });
 }
@@ -266,6 +280,12 @@ pub fn event_nt(s: &str) {
             c.capped = true;
         }
     });
+}
+
+pub fn live() -> bool {
+    use std::sync::OnceLock;
+    static LIVE: OnceLock<bool> = OnceLock::new();
+    *LIVE.get_or_init(|| std::env::var("AGSIM_LIVE").is_ok())
 }
 
 pub fn capped() -> bool {
